@@ -9,7 +9,7 @@
 Require Import Arith Lia List Bool ZArith QArith Qcanon.
 From TK Require Import Mat_Sums Mat_Core Mat_Qc Mat_EigSelect EigSelect Mat_EigSelect_Tie
                        Lap_Model Lap_Spec Lap_Exec Lap_Proof_Lap Lap_Proof_Embed Lap_Proof_Dm
-                       Lap_Proof_Total Lap_Proof_Order.
+                       Lap_Proof_Total Lap_Proof_Complete Lap_Proof_Order.
 Import ListNotations.
 Local Open Scope list_scope.
 Local Open Scope nat_scope.
@@ -385,7 +385,54 @@ Proof.
   destruct a as [|[|[|[|a]]]]; destruct b as [|[|[|[|b]]]]; try lia; vm_compute; discriminate.
 Qed.
 
-(* 15. the eigenvalue slice of the smallest-eigenvalue site (defect F7, known finding): for whichever form the
+(* 16. the answer exhausts the spectrum of the pencil: with the completeness relation V (V^T Dm) = I (the other
+       half of "V is square and Dm-orthonormal"; measured on the reference decomposition by the check), a scalar
+       different from every lam_c has only the trivial generalised eigenvector.  Any field. *)
+Theorem Lap_spectrum_complete :
+  forall (F : Type) (Fo : FieldOps F) (Ff : IsField F) (N : nat) (L Dm V : mat F) (lam : vec F),
+    msym N L -> msym N Dm ->
+    gen_contract N L Dm V lam ->
+    meq N N (mmul N V (mmul N (mtrans V) Dm)) mI ->
+    forall (mu : F) (y : vec F),
+      gen_eigvec N L Dm mu y ->
+      (forall c, c < N -> lam c <> mu) ->
+      forall i, i < N -> y i = 0%F.
+Proof. exact @spectrum_complete. Qed.
+Print Assumptions Lap_spectrum_complete.
+
+(* 17. hence, at Qc, relative to the PENCIL (L, Dm) itself: lam_0 = 0 and every non-zero eigenvalue mu of the
+       pencil (with a non-zero eigenvector) is some lam_c, c >= 1; if it is not among the kept lam_1 .. lam_d it is
+       at least as large as each of them.  So the returned columns belong to the d smallest non-zero eigenvalues
+       of L y = lambda D y.
+       _partial only in that ascending order and the completeness relation are the solver's contract. *)
+Theorem Lap_pencil_spectrum_Qc_partial :
+  forall (heat : nat -> nat -> Qc) (n : nat) (nbrs : list (list nat)) (k d : nat)
+         (Dm V : mat Qc) (lam : vec Qc),
+    d + 1 <= n ->
+    (forall i q, i < n -> q < k -> nb_at nbrs i q < n) ->
+    (forall i q, i < n -> q < k -> (0 < heat i (nb_at nbrs i q))%Qc) ->
+    lconnected n nbrs k ->
+    msym n Dm ->
+    gen_contract n (matL heat k nbrs n) Dm V lam ->
+    meq n n (mmul n V (mmul n (mtrans V) Dm)) mI ->
+    (forall a b, a <= b -> b < n -> (lam a <= lam b)%Qc) ->
+    lam 0 = 0%Qc /\
+    forall (mu : Qc) (y : vec Qc),
+      gen_eigvec n (matL heat k nbrs n) Dm mu y -> (exists i, i < n /\ y i <> 0%Qc) -> mu <> 0%Qc ->
+      exists c, 1 <= c /\ c < n /\ lam c = mu /\
+                (d < c -> forall c', c' < d -> (lam (1 + c')%nat <= mu)%Qc).
+Proof. exact le_pencil_spectrum. Qed.
+Print Assumptions Lap_pencil_spectrum_Qc_partial.
+
+Example Lap_pencil_spectrum_nonvacuous :
+  meq 4 4 (mmul 4 c4_V (mmul 4 (mtrans c4_V) c4_D)) mI /\
+  msym 4 (matL c4_heat 2 c4_nbrs 4).
+Proof.
+  split; [apply meq_by_compute; vm_compute; reflexivity|].
+  apply read_msym_by_compute. vm_compute. reflexivity.
+Qed.
+
+(* 18. the eigenvalue slice of the smallest-eigenvalue site (defect F7, known finding): for whichever form the
        generated table of the tree has, either the refutation with witness or the in-range theorem *)
 Theorem Lap_eig_segment_table :
   (f7_present = true /\
